@@ -74,4 +74,34 @@ Fixpoint be_bytes (n : nat) (v : N) : list N :=
   end.
 
 Definition is_byte (b : N) : bool := b <? 256.
+
+(* std::str::from_utf8: well-formed UTF-8 (Unicode table 3-7: no overlong forms, no surrogates, <= U+10FFFF) *)
+Definition in_range (lo hi b : N) : bool := (lo <=? b) && (b <=? hi).
+Definition cont (b : N) : bool := in_range 128 191 b.
+Fixpoint utf8_valid_fuel (fuel : nat) (s : list N) : bool :=
+  match fuel with
+  | O => match s with [] => true | _ => false end
+  | S f =>
+    match s with
+    | [] => true
+    | b0 :: r =>
+      if b0 <? 128 then utf8_valid_fuel f r
+      else if in_range 194 223 b0 then
+        match r with b1 :: r' => cont b1 && utf8_valid_fuel f r' | _ => false end
+      else if b0 =? 224 then
+        match r with b1 :: b2 :: r' => in_range 160 191 b1 && cont b2 && utf8_valid_fuel f r' | _ => false end
+      else if in_range 225 236 b0 || in_range 238 239 b0 then
+        match r with b1 :: b2 :: r' => cont b1 && cont b2 && utf8_valid_fuel f r' | _ => false end
+      else if b0 =? 237 then
+        match r with b1 :: b2 :: r' => in_range 128 159 b1 && cont b2 && utf8_valid_fuel f r' | _ => false end
+      else if b0 =? 240 then
+        match r with b1 :: b2 :: b3 :: r' => in_range 144 191 b1 && cont b2 && cont b3 && utf8_valid_fuel f r' | _ => false end
+      else if in_range 241 243 b0 then
+        match r with b1 :: b2 :: b3 :: r' => cont b1 && cont b2 && cont b3 && utf8_valid_fuel f r' | _ => false end
+      else if b0 =? 244 then
+        match r with b1 :: b2 :: b3 :: r' => in_range 128 143 b1 && cont b2 && cont b3 && utf8_valid_fuel f r' | _ => false end
+      else false
+    end
+  end.
+Definition utf8_valid (s : list N) : bool := utf8_valid_fuel (length s) s.
 Definition bytes_ok (bs : list N) : bool := forallb is_byte bs.
